@@ -155,7 +155,9 @@ class Ref:
         e = self.reg.pop(old)
         e['method'] = True
         self.reg[selector + '.' + old.split('.')[-1]] = e
-    self.reg[selector] = {'params': params, 'varkw': sig['varkw'], 'allow': op['allow'], 'deny': op['deny'],
+    # (what a binding may name: a positional-only parameter cannot be filled by keyword, D56)
+    bindable = [p[0] for p in sig['pos']][sig.get('posonly', 0):] + [p[0] for p in sig['kwonly']]
+    self.reg[selector] = {'params': bindable, 'varkw': sig['varkw'], 'allow': op['allow'], 'deny': op['deny'],
                           'method': op.get('method', False), 'obj': op['obj']}
     return {'ok': None}
 
